@@ -9,14 +9,16 @@ import (
 
 // standard seeds shared by the history-quantified properties
 const (
-	scStatic3 = "static:3:45"
-	scStatic4 = "static:4:56"
-	scSilent4 = "silent:4:60:3:14"
-	scSilent5 = "silent:5:70:4:10"
-	scLate4   = "late:36"
-	scJoin3   = "join:3:5:84"
-	scLeave4  = "leave:4:6:84"
-	scJoin2   = "join:2:4:60"
+	scStatic3   = "static:3:45"
+	scStatic4   = "static:4:56"
+	scSilent4   = "silent:4:60:3:14"
+	scSilent5   = "silent:5:70:4:10"
+	scLate4     = "late:36"
+	scJoin3     = "join:3:5:84"
+	scLeave4    = "leave:4:6:84"
+	scJoin2     = "join:2:4:60"
+	scTwoLeaves = "twoleaves:5:8:90"
+	scJoinLeave = "joinleave:4:6:84"
 )
 
 func nodesOf(n int) []int {
@@ -43,12 +45,12 @@ func standardPhases(mons []string, suffix int, thorough bool) []Phase {
 		add("S1 n=3 depth 5 {6 gossip pairs,T0,T1,T2}", s1Items("s1:3:0", 5, 2, mons))
 	}
 	// S3: deviation bounded around fair seeds
-	seeds := []string{scStatic3, scStatic4, scSilent4, scSilent5, scLate4, scJoin3, scLeave4, scJoin2}
+	seeds := []string{scStatic3, scStatic4, scSilent4, scSilent5, scLate4, scJoin3, scLeave4, scJoin2, scTwoLeaves, scJoinLeave}
 	var d0 []sched.Item
 	for _, s := range seeds {
 		d0 = append(d0, s3Items(s, 0, nil, nil, mons, suffix)...)
 	}
-	add("S3 d=0 on 8 seeds", d0)
+	add("S3 d=0 on 10 seeds (static 3/4, silent 4/5, late witness, join 3->4, leave 4->3, join 2->3, two leaves in one block, join+leave in one block)", d0)
 	// S2: seed prefix + exhaustive window + fair suffix
 	w3 := "win:3:-1:" + scStatic3
 	wj := "win:4:-1:" + scJoin3
